@@ -112,7 +112,9 @@ Definition extract_field (s : st) (tag : bytes) (optional : bool) : xres :=
 Definition add_item (s : st) (it : item) : st :=
   {| cur := cur s; seen := seen s; dup := dup s; env := env s; items := it :: items s; verified := verified s |}.
 
-Definition letters7 : list bytes := map bs ["A"; "B"; "C"; "D"; "F"; "K"; "L"]%string.
+(* the letters detect_variant / detect_variant_optional look for; Engine/Instance.v checks this constant
+   against the list regenerated from parser/message_parser.rs *)
+Definition letters7 : list bytes := map bs ["A"; "B"; "C"; "D"; "F"; "G"; "H"; "K"; "L"; "P"]%string.
 Definition letters26 : list bytes :=
   map bs ["A"; "B"; "C"; "D"; "E"; "F"; "G"; "H"; "I"; "J"; "K"; "L"; "M"; "N"; "O"; "P"; "Q"; "R";
           "S"; "T"; "U"; "V"; "W"; "X"; "Y"; "Z"]%string.
